@@ -15,3 +15,11 @@ Theorem C16_node_itself : forall nx ev ir soll (x : nx) p, ev x = Exn InvalidExp
   own_status ev ir x p soll = Ok (VSeg IS_OPTIONAL (Some (ir x))).
 Proof. exact invalid_node_itself. Qed.
 Print Assumptions C16_node_itself.
+
+(* an invalid value-pool entry is treated as selectable: it is among the offered values of its pool (C17_offered says the offered values are what the
+   element reports when its segment is not forbidden) *)
+From Ahb Require Import Proofs.C17_pool.
+Theorem C16_pool_entry_selectable : forall nx (ev : nx -> result ahbres) (pool : list (text * text * nx)) p,
+  In p pool -> ev (snd p) = Exn InvalidExpr -> In (qm p) (offered ev pool).
+Proof. exact invalid_entry_is_offered. Qed.
+Print Assumptions C16_pool_entry_selectable.
